@@ -15,13 +15,13 @@ import (
 func init() { Registry["C06"] = checkC06; Registry["C15"] = checkC15 }
 
 type twinPair struct {
-	pkg      string // relative package path
-	generic  string
-	special  string
-	recvG    string // receiver type of generic ("" function)
-	recvS    string
-	why      string
-	nameMap  map[string]string
+	pkg        string // relative package path
+	generic    string
+	special    string
+	recvG      string // receiver type of generic ("" function)
+	recvS      string
+	why        string
+	nameMap    map[string]string
 	dropParams []string
 }
 
@@ -77,6 +77,7 @@ func checkC06(c *core.Ctx) error {
 	c.Rule("C06.R2", "generic linear-algebra code never writes a value obtained with GetFloat64/Float64At back through SetFloat64/New*/Const* (derivative laundering); constants are fine", 30)
 	c.Rule("C06.R3", "scratch scalars/vectors/matrices of generic algorithms are created with the element type of an input (ElementType()), never with a fixed type", 40)
 	c.Rule("C06.R4", "Jacobian/Hessian helpers clone and activate their argument (order 1 resp. 2) and store y_i.GetDerivative(j) resp. y.GetHessian(i,j) at (i,j)", 36)
+	checkValueGuardedWrites(c)
 	checkTwinPairs(c, "C06.R1", c06Pairs)
 	checkDispatch(c, "algorithm/gaussJordan")
 	checkDispatch(c, "algorithm/cholesky")
@@ -869,4 +870,86 @@ func checkJacobianHessian(c *core.Ctx) {
 				"the derivative is stored only if "+condStore+" and nothing clears the cell otherwise: entries the result matrix held before the call survive where the derivative is zero")
 		}
 	})
+}
+
+// checkValueGuardedWrites (C06.R5): generic algorithm code runs on AD scalars, whose state is value plus derivatives. A
+// write that is skipped because the element already HOLDS THE VALUE (`if x.GetFloat64() != v { x.SetFloat64(v) }`) leaves
+// the element's derivatives in place: a recycled buffer entry that is exactly 0 or 1 but carries derivatives of an earlier
+// result then feeds them into the next computation. (Re)initialisations must be unconditional.
+func checkValueGuardedWrites(c *core.Ctx) {
+	c.Rule("C06.R5", "algorithm packages: no (re)initialising write to a scalar is skipped because the scalar already holds the value", 0)
+	n := 0
+	for _, p := range c.LibPkgs() {
+		if !strings.Contains(p.PkgPath, "/algorithm/") {
+			continue
+		}
+		info := p.TypesInfo
+		pkg := p
+		core.EachFunc(p, func(_ *ast.File, fd *ast.FuncDecl) {
+			ast.Inspect(fd.Body, func(nd ast.Node) bool {
+				is, ok := nd.(*ast.IfStmt)
+				if !ok || is.Else != nil || len(is.Body.List) == 0 {
+					return true
+				}
+				be, ok := ast.Unparen(is.Cond).(*ast.BinaryExpr)
+				if !ok || (be.Op != token.NEQ && be.Op != token.EQL) {
+					return true
+				}
+				// the scalar whose value is read
+				readOf := func(e ast.Expr) string {
+					ce, ok := ast.Unparen(e).(*ast.CallExpr)
+					if !ok || len(ce.Args) != 0 {
+						return ""
+					}
+					sel, ok := ce.Fun.(*ast.SelectorExpr)
+					if !ok || !strings.HasPrefix(sel.Sel.Name, "Get") {
+						return ""
+					}
+					if tv, ok := info.Types[sel.X]; !ok || !strings.Contains(types.TypeString(tv.Type, nil), "Scalar") {
+						return ""
+					}
+					return types.ExprString(sel.X)
+				}
+				target := readOf(be.X)
+				if target == "" {
+					target = readOf(be.Y)
+				}
+				if target == "" || be.Op != token.NEQ {
+					return true
+				}
+				// resolve a local bound in the init statement: if x := M.At(i,j); x.GetFloat64() != v
+				n++
+				only := true
+				for _, st := range is.Body.List {
+					es, ok := st.(*ast.ExprStmt)
+					if !ok {
+						only = false
+						break
+					}
+					ce, ok := es.X.(*ast.CallExpr)
+					if !ok {
+						only = false
+						break
+					}
+					sel, ok := ce.Fun.(*ast.SelectorExpr)
+					if !ok || types.ExprString(sel.X) != target {
+						only = false
+						break
+					}
+					switch sel.Sel.Name {
+					case "SetFloat64", "SetFloat32", "SetInt", "Reset", "Set":
+					default:
+						only = false
+					}
+				}
+				if only {
+					c.Fail("C06.R5", c.FuncName(pkg, fd), "write to "+target+" not guarded by its own value", is.Pos(),
+						"the scalar "+target+" is (re)initialised only if its value differs from the new one: an entry that already holds the value keeps the derivatives of an earlier result, which then enter the next computation (values stay right, first and second derivatives are wrong)")
+				}
+				return true
+			})
+		})
+	}
+	c.Analysed["value_tests_inspected"] = n
+	c.OK("C06.R5", "algorithm", "value-guarded writes inspected", token.NoPos, "")
 }
